@@ -146,26 +146,28 @@ Definition block_init (b : bytes) : res block :=
     if (size - 4) / 4 <? n then Ok (mk_block b size 0 0)
     else Ok (mk_block b size size (size - (1 + n) * 4)).
 
-(* decode_entry(shared, non_shared, value_length, xp = data + p, limit = data + limit).
-   Result: None = NULL; Some (shared, non_shared, value_length, offset of key delta). *)
-Definition decode_entry (data : bytes) (size p limit : N)
-  : res (option (N * N * N * N)) :=
+(* decode_entry(shared, non_shared, value_length, xp, limit) where [sub] is the
+   block from xp on (every read of the C function is a pattern match on [sub]:
+   OOB if the block ends before the byte that is read) and xn = limit - xp.
+   Result: None = NULL; Some (shared, non_shared, value_length, header length,
+   the block from the key delta on). *)
+Definition decode_entry (sub : bytes) (p limit : N)
+  : res (option (N * N * N * N * bytes)) :=
   if limit <? p then Ok None
-  else if size <? limit then OOB       (* [xp, limit) must lie inside the block *)
   else
     let xn := limit - p in
     if xn <? 3 then Ok None
     else
-      match drop_n p data with
+      match sub with
       | a :: b :: c :: rest =>
           if (a <? 128) && (b <? 128) && (c <? 128) then
             (* fast path: all three values are encoded in one byte each *)
-            if xn - 3 <? b + c then Ok None else Ok (Some (a, b, c, p + 3))
+            if xn - 3 <? b + c then Ok None else Ok (Some (a, b, c, 3, rest))
           else
             (* three varint32 reads bounded by xn: they never look further
                than 15 bytes ahead *)
             let wlen := N.min xn 15 in
-            let w := take_n wlen (a :: b :: c :: rest) in
+            let w := take_n wlen sub in
             if negb (nlen w =? wlen) then OOB
             else
               match varint32_read w with
@@ -179,30 +181,43 @@ Definition decode_entry (data : bytes) (size p limit : N)
                   | Some (value_length, w3) =>
                       let used := wlen - nlen w3 in
                       if xn - used <? non_shared + value_length then Ok None
-                      else Ok (Some (shared, non_shared, value_length, p + used))
+                      else Ok (Some (shared, non_shared, value_length, used, drop_n used sub))
                   end
                 end
               end
       | _ => OOB
       end.
 
+(* checked memcpy source: the first [len] bytes of [sub] *)
+Definition take_exact (sub : bytes) (len : N) : res bytes :=
+  let s := take_n len sub in
+  if nlen s =? len then Ok s else OOB.
+
 (* ---- block iterator ---- *)
+(* Besides the fields of ldb_blockiter_t the state caches three suffixes of the
+   block so that sequential decoding does not re-walk the list:
+     bi_rarr  = the block from the restart array on   (data + restarts)
+     bi_vrest = the block from the current value on   (value.data)
+     bi_next  = the block from the end of the value on (value.data + value.size)
+   (invariants proved in BlockProofs). *)
 Record biter := mk_biter {
   bi_data : bytes;
-  bi_size : N;        (* real length of bi_data *)
   bi_empty : bool;    (* ldb_emptyiter: every operation is a no-op *)
   bi_restarts : N;    (* offset of restart array *)
   bi_num : N;         (* num_restarts *)
+  bi_rarr : bytes;
   bi_cur : N;         (* current *)
   bi_ridx : N;        (* restart_index *)
   bi_key : bytes;
   bi_voff : N;        (* value.data - data *)
   bi_vlen : N;        (* value.size *)
+  bi_vrest : bytes;
+  bi_next : bytes;
   bi_status : status
 }.
 
 Definition biter_empty (st : status) : biter :=
-  mk_biter [] 0 true 0 0 0 0 [] 0 0 st.
+  mk_biter [] true 0 0 [] 0 0 [] 0 0 [] [] st.
 
 (* ldb_blockiter_create *)
 Definition biter_create (blk : block) : res biter :=
@@ -210,36 +225,39 @@ Definition biter_create (blk : block) : res biter :=
   else
     n <~ read32 (blk_data blk) (blk_len blk) (blk_size blk - 4) ;;
     if n =? 0 then Ok (biter_empty SOk)
-    else Ok (mk_biter (blk_data blk) (blk_len blk) false (blk_restarts blk) n
-                      (blk_restarts blk) n [] 0 0 SOk).
+    else Ok (mk_biter (blk_data blk) false (blk_restarts blk) n
+                      (drop_n (blk_restarts blk) (blk_data blk))
+                      (blk_restarts blk) n [] 0 0 [] [] SOk).
 
 Definition biter_valid (it : biter) : bool :=
   negb (bi_empty it) && (bi_cur it <? bi_restarts it).
 Definition biter_status (it : biter) : status := bi_status it.
 Definition biter_key (it : biter) : bytes := bi_key it.
-Definition biter_value (it : biter) : res bytes :=
-  slice (bi_data it) (bi_size it) (bi_voff it) (bi_vlen it).
+Definition biter_value (it : biter) : res bytes := take_exact (bi_vrest it) (bi_vlen it).
 
 Definition set_pos (it : biter) (cur ridx : N) : biter :=
-  mk_biter (bi_data it) (bi_size it) (bi_empty it) (bi_restarts it) (bi_num it)
-           cur ridx (bi_key it) (bi_voff it) (bi_vlen it) (bi_status it).
+  mk_biter (bi_data it) (bi_empty it) (bi_restarts it) (bi_num it) (bi_rarr it)
+           cur ridx (bi_key it) (bi_voff it) (bi_vlen it) (bi_vrest it) (bi_next it) (bi_status it).
 Definition set_ridx (it : biter) (ridx : N) : biter := set_pos it (bi_cur it) ridx.
 
 (* ldb_blockiter_corruption *)
 Definition biter_corrupt (it : biter) : biter :=
-  mk_biter (bi_data it) (bi_size it) (bi_empty it) (bi_restarts it) (bi_num it)
-           (bi_restarts it) (bi_num it) [] 0 0 SCorruption.
+  mk_biter (bi_data it) (bi_empty it) (bi_restarts it) (bi_num it) (bi_rarr it)
+           (bi_restarts it) (bi_num it) [] 0 0 [] [] SCorruption.
 
-(* get_restart_point *)
+(* get_restart_point: ldb_fixed32_decode(data + restarts + index * 4), clamped *)
 Definition get_restart_point (it : biter) (index : N) : res N :=
-  off <~ read32 (bi_data it) (bi_size it) (bi_restarts it + index * 4) ;;
-  Ok (if bi_restarts it <? off then bi_restarts it else off).
+  match de32 (drop_n (index * 4) (bi_rarr it)) with
+  | None => OOB
+  | Some off => Ok (if bi_restarts it <? off then bi_restarts it else off)
+  end.
 
 (* seek_to_restart_point *)
 Definition seek_to_restart_point (it : biter) (index : N) : res biter :=
   off <~ get_restart_point it index ;;
-  Ok (mk_biter (bi_data it) (bi_size it) (bi_empty it) (bi_restarts it) (bi_num it)
-               (bi_cur it) index [] off 0 (bi_status it)).
+  let sub := drop_n off (bi_data it) in
+  Ok (mk_biter (bi_data it) (bi_empty it) (bi_restarts it) (bi_num it) (bi_rarr it)
+               (bi_cur it) index [] off 0 sub sub (bi_status it)).
 
 (* next_entry_offset *)
 Definition next_entry_offset (it : biter) : N := bi_voff it + bi_vlen it.
@@ -268,18 +286,20 @@ Definition parse_next_key (it : biter) : res (biter * bool) :=
     (* No more entries to return. Mark as invalid. *)
     Ok (set_pos it (bi_restarts it) (bi_num it), false)
   else
-    d <~ decode_entry (bi_data it) (bi_size it) cur (bi_restarts it) ;;
+    d <~ decode_entry (bi_next it) cur (bi_restarts it) ;;
     match d with
     | None => Ok (biter_corrupt it, false)
-    | Some (shared, non_shared, value_length, p) =>
+    | Some (shared, non_shared, value_length, hdr, krest) =>
         if nlen (bi_key it) <? shared then Ok (biter_corrupt it, false)
         else if is_internal && (shared + non_shared <? 8) then Ok (biter_corrupt it, false)
         else
-          delta <~ slice (bi_data it) (bi_size it) p non_shared ;;
-          let it1 := mk_biter (bi_data it) (bi_size it) (bi_empty it) (bi_restarts it)
-                              (bi_num it) cur (bi_ridx it)
+          delta <~ take_exact krest non_shared ;;
+          let vrest := drop_n non_shared krest in
+          let it1 := mk_biter (bi_data it) (bi_empty it) (bi_restarts it) (bi_num it) (bi_rarr it)
+                              cur (bi_ridx it)
                               (take_n shared (bi_key it) ++ delta)
-                              (p + non_shared) value_length (bi_status it) in
+                              (cur + hdr + non_shared) value_length
+                              vrest (drop_n value_length vrest) (bi_status it) in
           it2 <~ advance_ridx (bi_data it) it1 ;;
           Ok (it2, true)
     end.
@@ -345,14 +365,14 @@ Fixpoint seek_bsearch (fuel : nat) (target : bytes) (it : biter) (lo hi : N)
     | S fuel' =>
         let mid := (lo + hi + 1) / 2 in
         region_offset <~ get_restart_point it mid ;;
-        d <~ decode_entry (bi_data it) (bi_size it) region_offset (bi_restarts it) ;;
+        d <~ decode_entry (drop_n region_offset (bi_data it)) region_offset (bi_restarts it) ;;
         match d with
         | None => Ok (inl tt)
-        | Some (shared, non_shared, _, p) =>
+        | Some (shared, non_shared, _, _, krest) =>
             if negb (shared =? 0) then Ok (inl tt)
             else if is_internal && (non_shared <? 8) then Ok (inl tt)
             else
-              mid_key <~ slice (bi_data it) (bi_size it) p non_shared ;;
+              mid_key <~ take_exact krest non_shared ;;
               match cmp mid_key target with
               | Lt => seek_bsearch fuel' target it mid hi
               | _ => seek_bsearch fuel' target it lo (mid - 1)
